@@ -10,7 +10,64 @@ type replayTest struct {
 
 func configureDriver(eng *Engine, j Job, opts *ProofOpts) {}
 
-func runExtras(r *Runner, p *Property, tier string) ([]*LedgerEntry, []string) { return nil, nil }
+func runExtras(r *Runner, p *Property, tier string) ([]*LedgerEntry, []string) {
+	var out []*LedgerEntry
+	var broken []string
+	for _, x := range p.Extra {
+		switch x {
+		case "spec-lemmas":
+			out = append(out, specLemmaObligations(r)...)
+		}
+	}
+	return out, broken
+}
+
+// specLemmaObligations: base and step of the absorption lemma, for both spec variants
+// (with and without the nesting limit), as quantifier-free obligations over an arbitrary run R.
+func specLemmaObligations(r *Runner) []*LedgerEntry {
+	var out []*LedgerEntry
+	tab := specTab()
+	for _, v := range []struct {
+		name  string
+		limit int64
+	}{{"value", 10000}, {"travarr", -1}, {"travobj", -1}} {
+		ex := &Exec{eng: r.eng, simVariant: v.name, simLimit: v.limit}
+		arr := Var("lemma.arr", ArraySort(BV(64), BV(8)))
+		a := Var("lemma.a", BV(64))
+		n := Var("lemma.n", BV(64))
+		absorbed := func(k *Term) *Term {
+			qa := ex.Rq(arr, a)
+			return And(Eq(ex.Rq(arr, k), qa), Eq(ex.Rend(arr, k), ex.Rend(arr, a)))
+		}
+		qa := ex.Rq(arr, a)
+		hyp := And(Sle(I64(0), a), Or(Eq(qa, q8(tab.Dead())), Eq(qa, q8(tab.Done()))))
+		cases := []struct {
+			name string
+			hyps []*Term
+			goal *Term
+		}{
+			{"base", []*Term{hyp}, absorbed(a)},
+			{"step", []*Term{hyp, Sle(a, n), Slt(n, I64(1<<62)), absorbed(n), ex.stepAxiom(arr, n)}, absorbed(Add(n, I64(1)))},
+		}
+		for _, c := range cases {
+			q := &Query{Name: "spec/absorb/" + c.name, Hyps: c.hyps, Goals: []*Term{c.goal}}
+			body, _ := q.Build(0)
+			res := r.eng.pool.Decide(body, nil, r.quickMs, r.slowMs)
+			e := &LedgerEntry{Name: "spec[" + v.name + "]/absorb/" + c.name, Kind: "lemma", Fn: "spec", Instances: 1, Solver: res.Solver, Secs: res.Secs, Status: "discharged"}
+			if res.Status != "unsat" {
+				e.Status = "failed"
+				if res.Status != "sat" {
+					e.Status = "undecided"
+				}
+				e.Detail = "solver answered " + res.Status
+				e.failQ = q
+				e.failRes = res
+			}
+			out = append(out, e)
+		}
+	}
+	return out
+}
 
 func concreteReplay(eng *Engine, p *Property, e *LedgerEntry, fp *FuncProof, base string) (replayTest, bool) {
 	return replayTest{}, false
